@@ -1,5 +1,5 @@
 """C01 - forwarded HTTP/1 requests carry exactly what the client sent."""
-import vlib, c02
+import vlib, c02, c16
 
 
 def hkey(r, why=None):
@@ -52,6 +52,8 @@ def run(ctx):
             ctx.traces_ok += 1
     ctx.sample({"header_case": recs[len(recs) // 2]})
     c02.run_seq(ctx, binp, q, c02.key, "C01")
+    # "no User-Agent is invented; configured header rules ... are applied": rule lists of HeaderRules.tla on the User-Agent field
+    c16.wire_rules(ctx, "C01:user-agent-rules", q)
     ctx.exhaustive = not q
 
 
